@@ -48,8 +48,13 @@ def h_history(ctx, first, depth):
             f = frame_fields(ctx, "f%d" % step, 2 if step % 2 else 0)
             for k in ("from_node", "to_node", "frame_id", "message_type", "reserved"):
                 setattr(frame.header, k, f[k])
-            frame.message = f["message"]
+            from vsym.core import SByteArray
+            mutable = SByteArray(blist(f["message"])) if ctx.symbolic else bytearray(f["message"])
+            frame.message = mutable  # a bytearray the caller keeps and scribbles over after the call
             got = q.enqueue(frame)
+            for j in range(len(mutable)):
+                mutable[j] = mutable[j] ^ 0xFF
+            frame.header.reserved = (f["reserved"] + 1) & 0xFF
             full = len(ref) >= ref_max
             dup = s_or(*[s_and(e["from_node"] == f["from_node"], e["frame_id"] == f["frame_id"],
                                e["message_type"] == f["message_type"]) for e in ref]) if ref else False
@@ -93,9 +98,39 @@ def h_history(ctx, first, depth):
     ctx.reached()
 
 
+def h_bulk_toggle(ctx, count):
+    """max_queue_size raised above the default, `count` distinct frames queued, then fragmentation toggled twice"""
+    from circuitpython_nrf24l01.network.structs import RF24NetworkFrame
+    clock = fresh_env(ctx)
+    radio, net = new_net(clock, 0)
+    m = ctx.int("max", 7, 10)
+    net.queue.max_queue_size = m
+    frame, ref = RF24NetworkFrame(), []
+    for i in range(count):
+        f = frame_fields(ctx, "f%d" % i, 1)
+        f["frame_id"], f["from_node"] = i, 0o5  # distinct by construction (no duplicate forks)
+        for k in ("from_node", "to_node", "frame_id", "message_type", "reserved"):
+            setattr(frame.header, k, f[k])
+        frame.message = f["message"]
+        ok = net.queue.enqueue(frame)
+        ctx.check(ok == (i < m), "accepted while below max_queue_size")
+        if bool(i < m):
+            ref.append({k: (blist(v) if k == "message" else v) for k, v in f.items()})
+    for toggle in (False, True):
+        net.fragmentation = toggle
+        ctx.check(net.queue.max_queue_size == m, "toggle keeps max_queue_size")
+        ctx.check(len(net.queue) == len(ref), "toggle moves ALL queued frames")
+    for e in ref:
+        same_frame(ctx, net.queue.dequeue(), e, "after toggles")
+    ctx.check(net.queue.dequeue() is None, "nothing else")
+    ctx.reached()
+
+
 def jobs(tier):
     out = []
     depth = 4 if tier == "quick" else 6
+    for count in ((8, 10) if tier == "quick" else (7, 8, 9, 10, 11)):
+        out.append(Job("bulk-toggle", h_bulk_toggle, dict(count=count), cost=3))
     for a in OPS:
         for b in OPS:
             if tier == "quick":
@@ -109,10 +144,11 @@ def jobs(tier):
 META = {
     "bounds": {"quick": "all 5^4 operation histories of length 4 over {enqueue, dequeue, peek, max_queue_size = sym 0..3, "
                         "fragmentation toggle}; every enqueued frame has symbolic from/to (0..0xFFF), id (0..0xFFFF), type "
-                        "(0..255 except 148-150), reserved and 0 or 2 symbolic message bytes; one frame object reused",
+                        "(0..255 except 148-150), reserved and 0 or 2 symbolic message bytes; one frame object (with a bytearray message that is scribbled over after every enqueue) reused; plus 8-10 "
+                        "frames under max_queue_size 7..10 moved through two fragmentation toggles",
                "thorough": "all 5^6 histories of length 6"},
     "outside": ["fragment types 148-150 (C06)", "field values outside the wire range (the statement's 'fields they had when "
-                "enqueued')", "histories longer than 6", "max_queue_size > 6 or negative",
+                "enqueued')", "histories longer than 6", "max_queue_size > 10 or negative",
                 "eviction when max_queue_size is lowered below the current length (not required by the statement as read here: "
                 "only acceptance is bounded)"],
     "assumptions": ["reference queue: bounded, duplicate-free (origin, frame id, type) FIFO of value copies"],
